@@ -10,6 +10,7 @@ import (
 	"runtime"
 	"strings"
 	"sync"
+	"unsafe"
 )
 
 // Hooks is implemented by the harness.
@@ -127,8 +128,9 @@ type Pool struct {
 	New  func() interface{}
 	real sync.Pool
 
-	tmu sync.Mutex
-	in  map[interface{}]bool // pointers currently sitting in the pool (Track only)
+	tmu   sync.Mutex
+	in    map[interface{}]bool   // objects currently sitting in the pool (Track only)
+	saved map[interface{}][]byte // their original bytes while they are scribbled over
 }
 
 // Track makes every Pool remember which pointers it currently holds; putting a pointer that is
@@ -149,16 +151,105 @@ func TakeDoublePuts() []string {
 	return out
 }
 
+// Scribble makes every Pool overwrite the memory of an object for as long as it sits in the pool
+// (byte slices, pointers to byte slices, pointers to structs without pointers: scratch buffers and
+// protocol headers) and put the original bytes back when the object is handed out again. Code
+// that keeps using an object after returning it to its pool then reads garbage at once, whatever
+// the schedule; code that (legitimately) relies on getting back what it put is not disturbed.
+var Scribble bool
+
+// DropPuts makes every Put discard its object, so that every Get builds a new one: sync.Pool may
+// drop its contents at any garbage collection, and nothing may depend on which object comes back.
+var DropPuts bool
+
+func pointerFree(t reflect.Type) bool {
+	switch t.Kind() {
+	case reflect.Bool, reflect.Int, reflect.Int8, reflect.Int16, reflect.Int32, reflect.Int64, reflect.Uint, reflect.Uint8, reflect.Uint16, reflect.Uint32, reflect.Uint64,
+		reflect.Uintptr, reflect.Float32, reflect.Float64, reflect.Complex64, reflect.Complex128:
+		return true
+	case reflect.Array:
+		return pointerFree(t.Elem())
+	case reflect.Struct:
+		for i := 0; i < t.NumField(); i++ {
+			if !pointerFree(t.Field(i).Type) {
+				return false
+			}
+		}
+		return true
+	}
+	return false
+}
+
+// bytesOf returns the memory of x that may be scribbled over (nil: none).
+func bytesOf(x interface{}) []byte {
+	v := reflect.ValueOf(x)
+	switch v.Kind() {
+	case reflect.Slice:
+		if v.Type().Elem().Kind() == reflect.Uint8 {
+			b := v.Bytes()
+			return b[:cap(b)]
+		}
+	case reflect.Ptr:
+		if v.IsNil() {
+			return nil
+		}
+		e := v.Elem()
+		if e.Kind() == reflect.Slice && e.Type().Elem().Kind() == reflect.Uint8 {
+			b := e.Bytes()
+			return b[:cap(b)]
+		}
+		if e.Kind() == reflect.Struct && pointerFree(e.Type()) && e.Type().Size() > 0 {
+			n := int(e.Type().Size())
+			return (*[1 << 30]byte)(unsafe.Pointer(v.Pointer()))[:n:n]
+		}
+	}
+	return nil
+}
+
+func poolKey(x interface{}) (interface{}, bool) {
+	if x == nil {
+		return nil, false
+	}
+	v := reflect.ValueOf(x)
+	switch v.Kind() {
+	case reflect.Ptr:
+		return x, true
+	case reflect.Slice:
+		if v.Cap() == 0 {
+			return nil, false
+		}
+		// (an unsafe.Pointer, not a uintptr: the entry keeps the buffer alive, so its address cannot
+		// be handed to a new buffer while the entry exists)
+		return unsafe.Pointer(v.Pointer()), true
+	}
+	return nil, false
+}
+
 func (p *Pool) trackPut(x interface{}) {
-	if !Track || x == nil || reflect.TypeOf(x).Kind() != reflect.Ptr {
+	if !Track {
+		return
+	}
+	k, ok := poolKey(x)
+	if !ok {
 		return
 	}
 	p.tmu.Lock()
-	dup := p.in[x]
+	dup := p.in[k]
 	if p.in == nil {
 		p.in = map[interface{}]bool{}
 	}
-	p.in[x] = true
+	p.in[k] = true
+	if Scribble && !dup {
+		if b := bytesOf(x); len(b) > 0 {
+			if p.saved == nil {
+				p.saved = map[interface{}][]byte{}
+			}
+			p.saved[k] = append([]byte(nil), b...)
+			for i := range b {
+				b[i] = 0xDB
+			}
+		}
+	}
 	p.tmu.Unlock()
 	if dup {
 		var fr []string
@@ -183,9 +274,16 @@ func (p *Pool) trackPut(x interface{}) {
 }
 
 func (p *Pool) trackGet(x interface{}) interface{} {
-	if Track && x != nil && reflect.TypeOf(x).Kind() == reflect.Ptr {
+	if !Track {
+		return x
+	}
+	if k, ok := poolKey(x); ok {
 		p.tmu.Lock()
-		delete(p.in, x)
+		delete(p.in, k)
+		if sv, ok := p.saved[k]; ok {
+			copy(bytesOf(x), sv)
+			delete(p.saved, k)
+		}
 		p.tmu.Unlock()
 	}
 	return x
@@ -210,6 +308,9 @@ func (p *Pool) Get() interface{} {
 }
 
 func (p *Pool) Put(x interface{}) {
+	if DropPuts {
+		return
+	}
 	p.trackPut(x)
 	if h := H; h != nil {
 		if h.PoolPut(p, x) {
